@@ -172,6 +172,20 @@ CHECKS["C02"] = (
     "DESIGN.md section 3, C02",
 )
 
+CHECKS["C15"] = (
+    "ENUM",
+    "model_checking",
+    "bounded exhaustive enumeration of regular expressions of the documented shape against own set semantics of regexes; concatenation lists against bounded language equality",
+    "All regexes built by the grammar in numeric_intervals_from_regex's docstring up to nesting depth 2 (thorough 3): singles, ordered "
+    "ranges, zero runs, digit runs, 2-3-member unions, the four sequence forms with optional/mandatory signs and zero padding, plus deeply "
+    "nested terms that differ only far below the root. The set of matched strings of length <= 5 is enumerated by an independent "
+    "set-semantics of regular expressions; returned intervals must contain every matched value (soundness) and, within |n| <= 120, only "
+    "integers that have a matched spelling (exactness). compress_concatenation_elements is run on all lists of 1..4 elements over "
+    "{r, r*, r+} and the bounded languages before/after must be equal.",
+    "Nothing is always accepted. Values: optional sign, zero padding, digits. The documented (-inf, inf) result for bare digit runs is a known finding.",
+    "DESIGN.md section 3, C15",
+)
+
 NOT_YET = "check not built yet in this round (planned in DESIGN.md section 3)"
 
 
